@@ -299,9 +299,9 @@ def enum_cases(tier):
                             fs = forms_for(origins[i], origins[i + 1])
                             hops.append((origins[i], codes[i], fs[(k + i) % len(fs)], origins[i + 1]))
                         g = chain_graph(hops)
-                        place = ("request", "manager", "both")[k % 3]
-                        method = ("GET", "POST", "PUT")[(k // 3) % 3]
-                        case = {"kind": "redir", "entry": entry, "graph": g, "method": method, "body": (None if method == "GET" else ("bytes", "file")[k % 2]),
+                        place = core.pick(k, 1, ("request", "manager", "both"))
+                        method = core.pick(k, 2, ("GET", "POST", "PUT"))
+                        case = {"kind": "redir", "entry": entry, "graph": g, "method": method, "body": (None if method == "GET" else core.pick(k, 3, ("bytes", "file"))),
                                 "req_policy": pol if place in ("request", "both") else None,
                                 "mgr_policy": (pol if place == "manager" else ({"t": "int", "v": 5} if place == "both" else None)), "redirect_kw": True}
                         yield case
